@@ -233,10 +233,6 @@ End IndexDelete.
 (* ------------------------------------------------------------------ the database *)
 Definition is_index (d : db) (k : Z) : Prop := exists c, alookup k d = Some c /\ c_isidx c = true.
 
-Lemma in_alookup_dep d k k' x :
-  alookup k' d = Some x -> k' <> k -> c_index x = k -> dependants_have_data d k (TR 0 0) = false \/ True.
-Proof. auto. Qed.
-
 Lemma guard_false_dep d k t k' x :
   dependants_have_data d k t = false -> alookup k' d = Some x -> k' <> k -> c_index x = k ->
   has_data_for x t = false.
@@ -317,4 +313,80 @@ Proof.
     + rewrite alookup_aset_ne by exact Hne. reflexivity.
   - intros y Hne. apply alookup_aset_ne. exact Hne.
   - exists c'. split; [apply alookup_aset_eq|exact Hs1].
+Qed.
+
+(* several index channels, in the order of the call *)
+Lemma delete_index_ok a b : forall ks d d',
+  db_ok d -> (forall k, In k ks -> is_index d k) ->
+  delete_index true d ks (TR a b) = (d', None) ->
+  db_ok d' /\
+  (forall k, content_of d' k = if existsb (Z.eqb k) ks then filter (outside_ab a b) (content_of d k)
+                               else content_of d k) /\
+  (forall k, ~ In k ks -> alookup k d' = alookup k d).
+Proof.
+  induction ks as [|k ks IH]; intros d d' Hok Hidx; simpl.
+  - intros [= <-]. split; [exact Hok|]. split; intros; reflexivity.
+  - destruct (Hidx k (or_introl eq_refl)) as (c & Hk & Hc).
+    destruct (dependants_have_data d k (TR a b)) eqn:Eg; [discriminate|].
+    destruct (delete_one true d k (TR a b)) as [d1|e] eqn:E1; [|discriminate].
+    destruct (delete_one_index d k c a b d1 Hok Hk Hc Eg E1) as (Hok1 & Hcont1 & Hkeys1 & Hoth1 & (c1 & Hk1 & Hc1)).
+    intros Hrest.
+    assert (Hidx1 : forall k', In k' ks -> is_index d1 k').
+    { intros k' Hk'. destruct (Z.eq_dec k' k) as [->|Hne]; [exists c1; auto|].
+      destruct (Hidx k' (or_intror Hk')) as (x & Hx & Hxd). exists x. rewrite Hoth1 by exact Hne. auto. }
+    destruct (IH d1 d' Hok1 Hidx1 Hrest) as (Hok' & Hcont' & Hoth').
+    split; [exact Hok'|]. split.
+    + intros k'. rewrite Hcont', Hcont1. destruct (k' =? k) eqn:Ek; simpl.
+      * destruct (existsb (Z.eqb k') ks); [apply filter_filter_same|reflexivity].
+      * reflexivity.
+    + intros k' Hnin. rewrite Hoth' by (intros H; apply Hnin; right; exact H).
+      apply Hoth1. intros ->. apply Hnin. left. reflexivity.
+Qed.
+
+Lemma existsb_in k l : existsb (Z.eqb k) l = true <-> In k l.
+Proof.
+  rewrite existsb_exists. split.
+  - intros (x & Hx & E). apply Z.eqb_eq in E. subst. exact Hx.
+  - intros H. exists k. split; [exact H|apply Z.eqb_refl].
+Qed.
+
+(* DeleteTimeRange over any set of channels (data channels first, then index channels) *)
+Theorem delete_exact_general d chs a b d' :
+  db_ok d -> delete_time_range true d chs (TR a b) = (d', None) ->
+  db_ok d' /\
+  (forall k, content_of d' k = if existsb (Z.eqb k) chs then filter (outside_ab a b) (content_of d k)
+                               else content_of d k).
+Proof.
+  intros Hok. unfold delete_time_range.
+  destruct (classify d chs) as [[ix da]|] eqn:Ec; [|discriminate].
+  destruct (classify_spec d chs ix da Ec) as (Hda & Hix & Hin).
+  destruct (delete_data true d da (TR a b)) as [d1 [e|]] eqn:Ed; [discriminate|].
+  destruct (delete_data_ok a b da d d1 Hok Hda Ed) as (Hok1 & Hcont1 & _ & _ & Hoth1).
+  intros Hi.
+  assert (Hix1 : forall k, In k ix -> is_index d1 k).
+  { intros k Hk. destruct (Hix k Hk) as (c & Hc & Hci). exists c. split; [|exact Hci].
+    rewrite Hoth1; [exact Hc|]. intros Hd. destruct (Hda k Hd) as (c2 & Hc2 & Hc2d). congruence. }
+  destruct (delete_index_ok a b ix d1 d' Hok1 Hix1 Hi) as (Hok' & Hcont' & _).
+  split; [exact Hok'|]. intros k. rewrite Hcont', Hcont1.
+  destruct (existsb (Z.eqb k) ix) eqn:Ei, (existsb (Z.eqb k) da) eqn:Edd, (existsb (Z.eqb k) chs) eqn:Ech;
+    try reflexivity; try (apply filter_filter_same).
+  - (* in ix and da but not in chs: impossible *)
+    apply existsb_in in Ei. assert (In k chs) by (apply Hin; auto). apply existsb_in in H. congruence.
+  - apply existsb_in in Ei. assert (In k chs) by (apply Hin; auto). apply existsb_in in H. congruence.
+  - apply existsb_in in Edd. assert (In k chs) by (apply Hin; auto). apply existsb_in in H. congruence.
+  - apply existsb_in in Ech. apply Hin in Ech as [H|H]; apply existsb_in in H; congruence.
+Qed.
+
+Theorem reads_after_delete_general d chs a b d' k rs re l l' :
+  db_ok d -> delete_time_range true d chs (TR a b) = (d', None) ->
+  0 <= rs < re -> re <= MAXTS ->
+  read_res d k (TR rs re) = Ok l -> read_res d' k (TR rs re) = Ok l' ->
+  read_content (stamps_of_db d' k) l' =
+  if existsb (Z.eqb k) chs then filter (outside_ab a b) (read_content (stamps_of_db d k) l)
+  else read_content (stamps_of_db d k) l.
+Proof.
+  intros Hok Hdel Hr HM Hl Hl'.
+  destruct (delete_exact_general d chs a b d' Hok Hdel) as (Hok' & Hcont).
+  rewrite (read_res_content d' k rs re l' Hok' Hr HM Hl'), (read_res_content d k rs re l Hok Hr HM Hl).
+  rewrite Hcont. destruct (existsb (Z.eqb k) chs); [apply filter_comm|reflexivity].
 Qed.
